@@ -436,12 +436,44 @@ func (s *Sys) NotifyBess(fseid uint64) bool {
 // ---------------------------------------------------------------- peers
 
 type Peer struct {
-	S     *Sys
-	Conn  *net.UDPConn
-	Addr  string // local ip
-	IP    net.IP
-	seq   uint32
-	Fresh bool
+	S        *Sys
+	Conn     *net.UDPConn
+	Addr     string // local ip
+	IP       net.IP
+	seq      uint32
+	Fresh    bool
+	AnswerHB bool     // answer the agent's own Heartbeat Requests
+	Inbox    [][]byte // agent-originated requests seen meanwhile (heartbeats, session reports)
+}
+
+// service handles an agent-originated request; it reports whether r was one.
+func (p *Peer) service(r []byte) bool {
+	m, err := message.Parse(r)
+	if err != nil {
+		return false
+	}
+	switch m.MessageType() {
+	case message.MsgTypeHeartbeatRequest:
+		p.Inbox = append(p.Inbox, r)
+		if p.AnswerHB {
+			_ = p.SendRaw(Marshal(message.NewHeartbeatResponse(m.Sequence(), ie.NewRecoveryTimeStamp(time.Unix(1700000000, 0)))))
+		}
+		return true
+	case message.MsgTypeSessionReportRequest, message.MsgTypeAssociationSetupRequest:
+		p.Inbox = append(p.Inbox, r)
+		return true
+	}
+	return false
+}
+
+// Idle services agent-originated requests for d.
+func (p *Peer) Idle(d time.Duration) {
+	deadline := time.Now().Add(d)
+	for time.Now().Before(deadline) {
+		if r, ok := p.Recv(time.Until(deadline)); ok {
+			p.service(r)
+		}
+	}
 }
 
 // NewPeer binds a new control-plane peer: a new source address (host part) when newHost, else a new port on host 2.
@@ -501,7 +533,7 @@ func (p *Peer) Exchange(b []byte, wait time.Duration) (replies [][]byte, barrier
 	if p.Fresh {
 		// the first datagram of a new address is handled by the node while it sets the association up;
 		// a second datagram arriving in that window is dropped by design ("drop packet for existing PFCPconn")
-		if r, ok := p.Recv(60 * time.Millisecond); ok {
+		if r, ok := p.Recv(60 * time.Millisecond); ok && !p.service(r) {
 			replies = append(replies, r)
 		}
 		p.Fresh = false
@@ -520,6 +552,9 @@ func (p *Peer) Exchange(b []byte, wait time.Duration) (replies [][]byte, barrier
 			}
 			if m, err := message.Parse(r); err == nil && m.MessageType() == message.MsgTypeHeartbeatResponse && m.Sequence() == seq {
 				return replies, true
+			}
+			if p.service(r) {
+				continue
 			}
 			replies = append(replies, r)
 		}
